@@ -25,6 +25,10 @@ Dims_2a == {D(1, 2, FALSE, "none", <<>>, -1), D(2, 2, TRUE, "none", <<>>, 0), D(
             D(0, 2, FALSE, "none", <<>>, -1), D(3, 2, FALSE, "none", <<>>, -1), D(2, 2, FALSE, "full", <<1, 2, 1>>, -1)}
 Dims_2b == {D(1, 2, TRUE, "none", <<>>, -1), D(2, 2, FALSE, "none", <<>>, -3), D(1, 1, FALSE, "none", <<>>, -1),
             D(2, 3, TRUE, "full", <<2, 1, 3, 2>>, -1), D(2, 2, FALSE, "none", <<>>, -1), D(0, 1, FALSE, "none", <<>>, -1)}
+Dims_2a_q == {D(1, 2, FALSE, "none", <<>>, -1), D(2, 2, TRUE, "none", <<>>, 0), D(0, 2, FALSE, "none", <<>>, -1), D(2, 2, FALSE, "full", <<1, 2, 1>>, -1)}
+Dims_2b_q == {D(1, 2, TRUE, "none", <<>>, -1), D(2, 1, TRUE, "none", <<>>, -1), D(2, 3, TRUE, "full", <<2, 1, 3, 2>>, -1), D(0, 1, FALSE, "none", <<>>, -1)}
+Dims_der_q == {D(1, 3, FALSE, "none", <<>>, -1), D(2, 2, TRUE, "none", <<>>, -1), D(2, 3, TRUE, "none", <<>>, 0)}
+Dims_cov == {D(1, 2, FALSE, "none", <<>>, -1), D(2, 2, TRUE, "none", <<>>, -1)}
 Dims_2c == PNone(1..2, 1..2, BOOLEAN) \cup PDefault({0, 3}, {2}, {FALSE}) \cup PFull({2}, {2}, BOOLEAN, {1})
 Dims_2d == PNone(1..2, {2}, BOOLEAN) \cup PDefault({0}, {1}, {FALSE}) \cup PDefault({3}, {3}, {TRUE}) \cup PFull({2}, {3}, {TRUE}, {1})
 Dims_tiny == PDefault(1..2, 2..3, BOOLEAN) \cup {D(2, 2, TRUE, "none", <<>>, 0), D(0, 3, FALSE, "none", <<>>, -1), D(3, 1, TRUE, "none", <<>>, -1)}
